@@ -81,6 +81,9 @@ def byte_set(conds, param):
     return s
 
 
+from .c02 import sub as _sub13
+
+
 def is_call_term(x, pat):
     return isinstance(x, tuple) and len(x) == 4 and x[0] == "call" and isinstance(x[1], str) and names.is_(x[1], pat)
 
@@ -410,6 +413,15 @@ def client_mapping(chk, p, S, tab, R="R7 client mapping", K="R7"):
                 v = N.norm(T2._rvalue(s_["rv"], s_["bb"], s_["idx"], 0) if s_.get("idx") is not None else T2._call(s_["term"], s_["bb"], 0))
                 if not flow.term_contains(v, lambda y: isinstance(y, tuple) and len(y) == 2 and y[0] == "errpayload" and is_ga(y[1])):
                     continue  # an error that does not come from get_assertion
+                # `x?` where the error types differ applies `From::from` to the error (FromResidual): the same conversion, spelled
+                # by the operator — made explicit here when the residual is a StatusCode and the function returns WebauthnError
+                if s_["kind"] == "residual" and s_.get("term") is not None:
+                    ga_ = [g.replace(" ", "") for g in (s_["term"].get("gargs") or [])]
+                    if len(ga_) >= 2 and ga_[0].endswith("WebauthnError>") and "Infallible" in ga_[1] and ga_[1].endswith("StatusCode>"):
+                        fr_ = [b_ for (adt_, tr_, nm_), bs_ in p.methods.items() if nm_ == "from" and tr_ == "core::convert::From" and (adt_ or "").endswith("WebauthnError") for b_ in bs_ if "StatusCode" in (b_.j["locals"][1].get("ty") or "")]
+                        if len(fr_) == 1:
+                            inner_ = [y for y in _sub13(v) if isinstance(y, tuple) and len(y) == 2 and y[0] == "errpayload" and is_ga(y[1])][0]
+                            v = ("call", fr_[0].path, (inner_,), 0)
                 convs.append(v)
             wit = "error of get_assertion leaves as %s" % [flow.term_str(x)[:140] for x in convs]
             ok = bool(convs) and all(flow.term_contains(x, is_conv) for x in convs)
